@@ -174,6 +174,12 @@ def fuzz_worker(args):
                 res2 = util.run(cmd, cwd=d, env=env, timeout=120, cpu_s=90)
                 if res2.timed_out or res2.rc in (152, 137, -24, -9):
                     v = ("hang", "input of %d bytes: no result within 90 CPU-seconds (twice)" % len(data))
+                    # known finding K05: with -Ca the NFA size limit is 2*10^9 states, so nested
+                    # repeats are expanded (quadratically slowly) instead of being refused
+                    aligned = any(o in ("-Ca", "--align") or (o.startswith("-C") and "a" in o) for o in opts) \
+                        or b"align" in data
+                    if aligned and len(re.findall(rb"\{\d+,?\d*\}", data)) >= 8:
+                        v = ("hang-align-repeat", v[1])
                 else:
                     v = judge(res2, [] if own else outs, spec)
                     out["inconc"].append("slow input (%d bytes) finished on the second, longer run" % len(data))
